@@ -7,8 +7,11 @@ import (
 	mrand "math/rand"
 	"os"
 	"os/exec"
+	"sort"
 	"strings"
 	"testing"
+	"unicode"
+	"unicode/utf8"
 
 	"pgregory.net/rapid"
 	"vh/drv"
@@ -17,13 +20,20 @@ import (
 // C18 - generators can reach every allowed value, hit the edges, and use fresh seeds.
 
 type C18Case struct {
-	What string `json:"what"` // reach8 | bands | fbands | edges | fedges | fresh
+	What string `json:"what"` // reach8 | reachsmall | reach16 | bands | fbands | edges | fedges | freach | reachrune | reachsampled | scalars | fresh
 	IK   string `json:"ik,omitempty"`
 	SA   int64  `json:"sa,omitempty"`
 	SB   int64  `json:"sb,omitempty"`
 	UA   uint64 `json:"ua,omitempty"`
 	UB   uint64 `json:"ub,omitempty"`
 	Bits int    `json:"bits,omitempty"`
+	// Ctor: which constructor builds the integer range: "" = XRange(a, b); "min" = XMin(a) (b is the kind's maximum);
+	// "max" = XMax(b) (a is the kind's minimum); "none" = X() (both)
+	Ctor string `json:"ctor,omitempty"`
+	// reachrune: RuneFrom(Runes, Tables...); reachsampled: SampledFrom over K elements
+	Runes  []rune   `json:"runes,omitempty"`
+	Tables []string `json:"tables,omitempty"`
+	K      int      `json:"k,omitempty"`
 	Base int    `json:"base"` // first Example seed
 	N    int    `json:"n"`    // number of draws
 	// fresh: the program under test has pinned Go's global math/rand source (rand.Seed(constant) in a TestMain or
@@ -44,7 +54,7 @@ func (c18) Cases(c *Ctx) int { return c.Pick(150, 2500) }
 // Gen samples ranges of every integer kind (placed at type extremes and from the hostile pool) and float ranges.
 func (c18) Gen(dt *drv.T, c *Ctx) any {
 	cs := &C18Case{Base: drv.IntRange(0, 1<<30).Draw(dt, "base")}
-	menu := []string{"bands", "bands", "edges", "fbands", "fedges", "freach", "reachsmall"}
+	menu := []string{"bands", "bands", "edges", "fbands", "fedges", "freach", "reachsmall", "reachsampled", "reachrune"}
 	if !c.Thorough() {
 		menu = append(menu, "reach8", "reach8")
 	}
@@ -60,7 +70,24 @@ func (c18) Gen(dt *drv.T, c *Ctx) any {
 			cs.IK, cs.SA, cs.SB = "Int8", int64(a-128), int64(b-128)
 		} else {
 			cs.IK, cs.UA, cs.UB = "Byte", uint64(a), uint64(b)
+			if drv.Bool().Draw(dt, "uint8") {
+				cs.IK = "Uint8"
+			}
 		}
+		cs.Ctor = genCtor(dt, cs)
+	case "reachsampled":
+		cs.N = 131072
+		cs.K = drv.IntRange(1, 256).Draw(dt, "k")
+	case "reachrune":
+		cs.N = 1 << 20
+		if n := drv.IntRange(0, 64).Draw(dt, "nrunes"); n > 0 {
+			cs.Runes = drv.SliceOfNDistinct(drv.OneOf(drv.Int32Range(0, 0x7f), drv.Int32Range(0x80, 0xd7ff), drv.Int32Range(0xe000, 0x10ffff)), n, n, drv.ID[int32]).Draw(dt, "runes")
+		}
+		nt := drv.IntRange(0, 2).Draw(dt, "ntables")
+		if len(cs.Runes) == 0 && nt == 0 {
+			nt = 1
+		}
+		cs.Tables = drv.SliceOfNDistinct(drv.SampledFrom(smallTables), nt, nt, drv.ID[string]).Draw(dt, "tables")
 	case "bands", "edges":
 		cs.N = 131072
 		if cs.What == "edges" {
@@ -98,6 +125,7 @@ func (c18) Gen(dt *drv.T, c *Ctx) any {
 			}
 			cs.UA, cs.UB = a, b
 		}
+		cs.Ctor = genCtor(dt, cs)
 	case "reachsmall":
 		// a range of at most 256 values of any integer kind, placed anywhere (type extremes, around zero, at powers
 		// of two): every value has to be produced, like for the 8-bit kinds
@@ -132,6 +160,7 @@ func (c18) Gen(dt *drv.T, c *Ctx) any {
 			}
 			cs.UA, cs.UB = a, a+span
 		}
+		cs.Ctor = genCtor(dt, cs)
 	case "freach":
 		// a float range of a few representable values: every one of them has to be produced
 		cs.N = 65536
@@ -170,11 +199,81 @@ func (c18) Gen(dt *drv.T, c *Ctx) any {
 	return cs
 }
 
+// genCtor picks, among the constructors that describe the range of cs, the one to build it with.
+func genCtor(dt *drv.T, cs *C18Case) string {
+	opts := ctorsOf(cs)
+	return opts[drv.IntRange(0, len(opts)-1).Draw(dt, "ctor")]
+}
+
+func ctorsOf(cs *C18Case) []string {
+	opts := []string{"", ""}
+	atMin, atMax := false, false
+	if intSigned(cs.IK) {
+		lo, hi := sBounds(cs.IK)
+		atMin, atMax = cs.SA == lo, cs.SB == hi
+	} else {
+		atMin, atMax = cs.UA == 0, cs.UB == uMax(cs.IK)
+	}
+	if atMax {
+		opts = append(opts, "min", "min")
+	}
+	if atMin {
+		opts = append(opts, "max", "max")
+	}
+	if atMin && atMax {
+		opts = append(opts, "none", "none")
+	}
+	return opts
+}
+
+// smallTables: names of the unicode categories and scripts with at most 400 members (every member of such a table has
+// a probability of about 1e-4 or more per draw when the table is one of at most two behind a list of runes).
+var smallTables = func() []string {
+	var out []string
+	for name, tab := range tableByName {
+		n := 0
+		for _, r := range tab.R16 {
+			n += int((r.Hi-r.Lo)/r.Stride) + 1
+		}
+		for _, r := range tab.R32 {
+			n += int((r.Hi-r.Lo)/r.Stride) + 1
+		}
+		if n >= 1 && n <= 400 {
+			out = append(out, name)
+		}
+	}
+	sort.Strings(out)
+	return out
+}()
+
+func tableMembers(name string) []rune {
+	var out []rune
+	tab := tableByName[name]
+	for _, r := range tab.R16 {
+		for c := rune(r.Lo); c <= rune(r.Hi); c += rune(r.Stride) {
+			out = append(out, c)
+		}
+	}
+	for _, r := range tab.R32 {
+		for c := rune(r.Lo); c <= rune(r.Hi); c += rune(r.Stride) {
+			out = append(out, c)
+		}
+	}
+	return out
+}
+
 // drawInts returns n values of the integer range as (negative?, magnitude) pairs folded into int64/uint64.
 func intExamples(cs *C18Case, f func(sv int64, uv uint64)) {
 	spec := &GenSpec{K: "int", IK: cs.IK, Mode: "range", SA: cs.SA, SB: cs.SB, UA: cs.UA, UB: cs.UB}
+	if cs.Ctor != "" {
+		spec.Mode = cs.Ctor
+	}
 	signed := intSigned(cs.IK)
-	switch cs.IK {
+	fast := cs.IK
+	if cs.Ctor != "" {
+		fast = ""
+	}
+	switch fast {
 	case "Byte":
 		g := rapid.ByteRange(byte(cs.UA), byte(cs.UB))
 		for i := 0; i < cs.N; i++ {
@@ -271,10 +370,21 @@ func (p c18) Run(c *Ctx, csAny any) Outcome {
 	} else {
 		desc += fmt.Sprintf("(%d, %d)", cs.UA, cs.UB)
 	}
+	switch cs.Ctor {
+	case "min":
+		desc += fmt.Sprintf(" built as %sMin", cs.IK)
+		out.Classes = append(out.Classes, "constructor-Min")
+	case "max":
+		desc += fmt.Sprintf(" built as %sMax", cs.IK)
+		out.Classes = append(out.Classes, "constructor-Max")
+	case "none":
+		desc += fmt.Sprintf(" built as %s()", cs.IK)
+		out.Classes = append(out.Classes, "constructor-unbounded")
+	}
 	switch cs.What {
 	case "reach8":
 		var seen [256]bool
-		if cs.IK == "Byte" {
+		if cs.IK == "Byte" || cs.IK == "Uint8" {
 			intExamples(cs, func(_ int64, u uint64) { seen[u] = true })
 			for v := cs.UA; v <= cs.UB; v++ {
 				if !seen[v] {
@@ -419,6 +529,129 @@ func (p c18) Run(c *Ctx, csAny any) Outcome {
 			}
 			out.NonTrivial = cs.UB-cs.UA >= 2
 		}
+	case "reach16":
+		// every value of the 16-bit kinds (thorough tier: 40 million draws; calibrated: the rarest value was produced
+		// 74 times in 40 million draws)
+		seen := make([]int32, 65536)
+		intExamples(cs, func(sv int64, uv uint64) { seen[uint16(sv)|uint16(uv)]++ })
+		few := 0
+		for v, n := range seen {
+			if n == 0 {
+				out.Viol = violf("C18:value-unreachable:16bit", "%s: the value with the bit pattern %#04x never produced in %d draws", desc, v, cs.N)
+				return out
+			}
+			if n < 20 {
+				few++
+			}
+		}
+		if few > 0 {
+			out.Classes = append(out.Classes, "asserted-int-value-with-fewer-than-20-hits")
+		}
+		out.NonTrivial = true
+	case "reachsampled":
+		// SampledFrom (and Just, for K = 1): every element of the slice has to be produced
+		elems := make([]int, cs.K)
+		for i := range elems {
+			elems[i] = i
+		}
+		g := rapid.SampledFrom(elems)
+		if cs.K == 1 {
+			g = rapid.Just(0)
+		}
+		seen := make([]int, cs.K)
+		for i := 0; i < cs.N; i++ {
+			v := g.Example(cs.Base + i)
+			if v < 0 || v >= cs.K {
+				out.Viol = violf("C18:sampled-value-not-in-slice", "SampledFrom(%d elements) produced %d", cs.K, v)
+				return out
+			}
+			seen[v]++
+		}
+		for v, n := range seen {
+			if n == 0 {
+				out.Viol = violf("C18:value-unreachable:sampled", "SampledFrom(%d elements): element %d never produced in %d draws", cs.K, v, cs.N)
+				return out
+			}
+			if n < 20 {
+				out.Classes = append(out.Classes, "asserted-element-with-fewer-than-20-hits")
+			}
+		}
+		out.NonTrivial = cs.K >= 3
+	case "reachrune":
+		// RuneFrom over a list of runes and up to two small tables: every rune of the list and every member of
+		// every table has to be produced
+		var tabs []*unicode.RangeTable
+		want := map[rune]bool{}
+		for _, r := range cs.Runes {
+			want[r] = true
+		}
+		for _, n := range cs.Tables {
+			tabs = append(tabs, tableByName[n])
+			for _, r := range tableMembers(n) {
+				want[r] = true
+			}
+		}
+		g := rapid.RuneFrom(append([]rune(nil), cs.Runes...), tabs...)
+		seen := map[rune]int{}
+		for i := 0; i < cs.N; i++ {
+			seen[g.Example(cs.Base+i)]++
+		}
+		rs := make([]rune, 0, len(want))
+		for r := range want {
+			rs = append(rs, r)
+		}
+		sort.Slice(rs, func(i, j int) bool { return rs[i] < rs[j] })
+		for _, r := range rs {
+			if seen[r] == 0 {
+				out.Viol = violf("C18:value-unreachable:rune", "RuneFrom(%d runes, tables %v): %U never produced in %d draws (%d distinct runes seen of %d)", len(cs.Runes), cs.Tables, r, cs.N, len(seen), len(want))
+				return out
+			}
+			if seen[r] < 20 {
+				out.Classes = append(out.Classes, "asserted-rune-with-fewer-than-20-hits")
+			}
+		}
+		out.NonTrivial = len(want) >= 3
+	case "scalars":
+		// Bool: both values; Rune(): every ASCII character and all four UTF-8 lengths (calibrated: the rarest ASCII
+		// character 11 times in 200,000 draws, so 2 million are drawn)
+		sawT, sawF := false, false
+		gb := rapid.Bool()
+		for i := 0; i < 4096; i++ {
+			if gb.Example(cs.Base + i) {
+				sawT = true
+			} else {
+				sawF = true
+			}
+		}
+		if !sawT || !sawF {
+			out.Viol = violf("C18:value-unreachable:bool", "Bool(): true seen=%v, false seen=%v in 4096 draws", sawT, sawF)
+			return out
+		}
+		gr := rapid.Rune()
+		var ascii [128]int
+		var byLen [5]int
+		for i := 0; i < cs.N; i++ {
+			r := gr.Example(cs.Base + i)
+			if r >= 0 && r < 128 {
+				ascii[r]++
+			}
+			if l := utf8.RuneLen(r); l >= 1 {
+				byLen[l]++
+			}
+		}
+		for r, n := range ascii {
+			if n == 0 {
+				out.Viol = violf("C18:value-unreachable:rune", "Rune(): %U never produced in %d draws", r, cs.N)
+				return out
+			}
+		}
+		for l := 1; l <= 4; l++ {
+			if byLen[l] == 0 {
+				out.Viol = violf("C18:value-unreachable:rune", "Rune(): no rune of %d UTF-8 bytes in %d draws", l, cs.N)
+				return out
+			}
+		}
+		out.NonTrivial = true
 	case "freach":
 		lo, hi := math.Float64frombits(cs.UA), math.Float64frombits(cs.UB)
 		seen := map[uint64]int{}
@@ -742,6 +975,39 @@ func (p c18) Loop(c *Ctx) {
 			bnd.What, bnd.N = "bands", 131072
 			run(&bnd)
 		}
+		for _, ctor := range []string{"none", "min", "max"} {
+			if mine() {
+				e := *cs
+				e.What, e.N, e.Ctor = "edges", 8192, ctor
+				run(&e)
+			}
+			if mine() {
+				bnd := *cs
+				bnd.What, bnd.N, bnd.Ctor = "bands", 131072, ctor
+				run(&bnd)
+			}
+		}
+		if intBits(ik) == 8 {
+			for _, ctor := range []string{"none", "min", "max"} {
+				if mine() {
+					r8 := *cs
+					r8.What, r8.N, r8.Ctor = "reachsmall", 65536, ctor
+					run(&r8)
+				}
+			}
+		}
+		if c.Thorough() && intBits(ik) == 16 {
+			for _, ctor := range []string{"", "none"} {
+				if mine() {
+					r16 := *cs
+					r16.What, r16.N, r16.Ctor = "reach16", 40_000_000, ctor
+					run(&r16)
+				}
+			}
+		}
+	}
+	if mine() {
+		run(&C18Case{What: "scalars", Base: base, N: 2_000_000})
 	}
 	// 4. freshness
 	for i := 0; i < c.Pick(4, 8); i++ {
